@@ -460,9 +460,9 @@ def block_schedule(dc, sc, res, rng, label):
             t += 2
         fresh.close()
         init = tuple(sorted(((k, stamp('init', big)) for k in keys), key=repr))
-        from .c05 import lookup_info
-        ops, dropped = lin.drop_tolerated_misses(ops, lookup_info)   # C05's tolerated anomaly, nothing else
-        res.count('tolerated_misses', dropped)
+        # No miss is tolerated here: every key of this schedule exists before, during and after every block, and a
+        # lookup that overlaps a block must see the state before or after it (the lock-free path re-selects when a
+        # value file was replaced), never "neither".
         try:
             ok, info = lin.check(ops, init, lin.kv_step, timeout=10)
         except lin.Timeout:
